@@ -60,3 +60,13 @@ CASES += [
          old="      auto                       p_arg_hdl = mSubGroupArgs.findArg( key);\n\n      if (p_arg_hdl != nullptr)\n      {\n         static_cast<",
          new="      detail::TypedArgBase*      p_arg_hdl = nullptr;\n      p_arg_hdl = mSubGroupArgs.findArg( key);\n\n      if (p_arg_hdl != nullptr)\n      {\n         static_cast<"),
 ]
+
+AO = 'src/library/prog_args/detail/constraint_all_of.cpp'
+CASES += [
+    dict(id='c04-eq-erase-after-early-return', prop='C04', file=AO, expect=None,
+         old="   if (argpos != mRemainingArguments.end())\n      mRemainingArguments.erase( argpos);",
+         new="   if (argpos == mRemainingArguments.end())\n      return;\n\n   mRemainingArguments.erase( argpos);"),
+    dict(id='c04-erase-guard-on-wrong-container', prop='C04', file=AO, expect='R12',
+         old="   if (argpos != mRemainingArguments.end())\n      mRemainingArguments.erase( argpos);",
+         new="   if (!mRemainingArguments.empty())\n      mRemainingArguments.erase( argpos);"),
+]
